@@ -33,7 +33,7 @@ _cvrp = [
     Lit("unvisited", "cell", key="visited", sign=-1, why="customers are visited exactly once"),
     Lit("capacity", "cmp", big={"vehicle_capacity"}, small={"demand", "used_capacity"}, strict=False, const=0,
         why="load never above capacity; a load exactly filling the vehicle is allowed"),
-    Lit("depot-after-depot", "eq", cells={"current_node"}, conj=False, why="documented pruning: no depot->depot while customers are servable"),
+    Lit("depot-after-depot", "eq", cells={"current_node"}, conj=False, alt=True, why="documented pruning: only depot->depot moves are pruned while customers are servable"),
 ]
 
 MASK = {
@@ -46,13 +46,13 @@ MASK = {
         Lit("demand-left", "eq", cells={"demand_with_depot"}, op="!=0", why="only customers with remaining demand"),
         Lit("room-left", "cmp", big={"vehicle_capacity"}, small={"used_capacity"}, strict=True, const=0,
             why="a full vehicle cannot deliver anything"),
-        Lit("depot-after-depot", "eq", cells={"current_node"}, conj=False),
+        Lit("depot-after-depot", "eq", cells={"current_node"}, conj=False, alt=True),
     ],
     "SVRPEnv": [
         Lit("unvisited", "cell", key="visited", sign=-1),
         Lit("skill", "cmp", big={"techs", "current_tech"}, small={"skills"}, strict=False, const=0,
             why="technician skill greater than or equal to the required skill"),
-        Lit("depot-after-depot", "eq", cells={"current_node"}, conj=False),
+        Lit("depot-after-depot", "eq", cells={"current_node"}, conj=False, alt=True),
         Lit("last-technician", "eq", cells={"current_tech"}, conj=False),
     ],
     "OPEnv": [
@@ -62,7 +62,7 @@ MASK = {
     ],
     "PCTSPEnv": [
         Lit("unvisited", "cell", key="visited", sign=-1),
-        Lit("min-prize", "cmp", big={"cur_total_prize"}, small=set(), strict=False, conj=False, const=-1,
+        Lit("min-prize", "cmp", big={"cur_total_prize"}, small=set(), strict=False, conj=False, const=-1, alt=True,
             why="the depot opens exactly when the collected prize reaches the requirement (1 after normalisation)"),
     ],
     "MTVRPEnv": [
@@ -81,7 +81,7 @@ MASK = {
         Lit("is-backhaul", "cmp", big={"demand_backhaul"}, small=set(), strict=True, conj=False, const=0),
         Lit("no-linehaul-after-backhaul", "cmp", big=set(), small={"demand_backhaul", "current_node"}, strict=False, conj=False, const=0,
             conj_with="is-linehaul", why="linehauls before backhauls: not carrying backhaul when delivering"),
-        Lit("depot-after-depot", "eq", cells={"current_node"}, conj=False),
+        Lit("depot-after-depot", "eq", cells={"current_node"}, conj=False, alt=True),
     ],
     # incremental family: literals of the `action_mask` value written by `_step`
     "TSPEnv": [
@@ -109,6 +109,10 @@ MASK = {
         Lit("no-depot-while-carrying", "cmp", big=set(), small={"current_carry"}, strict=False, conj=False, const=0),
     ],
 }
+_ret = Lit("not-returned-yet", "cell", key="visited", sign=-1, why="once the tour has returned to the depot (visited[0]) the episode is over: nothing but padding is offered")
+_ret.single = True
+MASK["OPEnv"].append(_ret)
+MASK["PCTSPEnv"].append(_ret)
 MASK["SPCTSPEnv"] = MASK["PCTSPEnv"]
 MASK["ATSPEnv"] = MASK["TSPEnv"]
 
